@@ -124,25 +124,46 @@ Definition convert_perm (t : string) : option Z :=
   | None => None
   end.
 
-(* ---- correspondence cases ---- *)
+(* ---- correspondence cases ----
+   An observed answer (assigned, allow) of the real ACL.Allow is coded as 2*assigned + (1 if allow).
+   Users are rendered by short aliases of the public-key strings (injective, "_default" kept as is):
+   the code only ever compares user strings for equality. *)
+
+Definition code (x : Z * bool) : Z := 2 * fst x + (if snd x then 1 else 0).
+
+Definition grid_answers (a : acl) (us ss : list string) (rs : list Z) : list Z :=
+  flat_map (fun u => flat_map (fun s => map (fun r => code (Allow a u s r)) rs) ss) us.
+
+Fixpoint zlist_eqb (x y : list Z) : bool :=
+  match x, y with
+  | [], [] => true
+  | a :: x', b :: y' => Z.eqb a b && zlist_eqb x' y'
+  | _, _ => false
+  end.
 
 Inductive case :=
+| CGrid (super : string) (tbl : list (string * perms)) (us ss : list string) (rs : list Z)
+        (observed : list Z)            (* answers for every u in us, s in ss, r in rs, in that order *)
 | CAllow (super : string) (tbl : list (string * perms))
-         (queries : list (string * string * Z * (Z * bool)))   (* user, scope, required, observed (assigned, allow) *)
+         (queries : list (string * string * Z * Z))   (* user, scope, required, observed code *)
 | CPrint (p : Z) (observed : string)
-| CParse (t : string) (observed : option Z)                    (* UnmarshalText: Some p / None = error *)
-| CConvert (t : string) (observed : option Z).                 (* convertACLPerm via YAML import: accepted as p / rejected *)
+| CParse (t : string) (observed : option Z)           (* UnmarshalText: Some p / None = error *)
+| CParseO (n : Z) (observed : option Z)               (* the same for the text of n 'o's *)
+| CConvert (t : string) (observed : option Z)         (* convertACLPerm via YAML import: accepted as p / rejected *)
+| CConvertO (n : Z) (observed : option Z).
 
-Definition pair_eqb (x y : Z * bool) : bool := Z.eqb (fst x) (fst y) && Bool.eqb (snd x) (snd y).
 Definition optZ_eqb (x y : option Z) : bool :=
   match x, y with Some a, Some b => Z.eqb a b | None, None => true | _, _ => false end.
 
 Definition check (c : case) : bool :=
   match c with
+  | CGrid su tbl us ss rs obs => zlist_eqb (grid_answers (mkACL su tbl) us ss rs) obs
   | CAllow su tbl qs =>
       let a := mkACL su tbl in
-      forallb (fun q => let '(u, s, r, obs) := q in pair_eqb (Allow a u s r) obs) qs
+      forallb (fun q => let '(u, s, r, obs) := q in Z.eqb (code (Allow a u s r)) obs) qs
   | CPrint p obs => String.eqb (perm_string p) obs
   | CParse t obs => optZ_eqb (perm_parse t) obs
+  | CParseO n obs => optZ_eqb (perm_parse (repeat_o (Z.to_nat n))) obs
   | CConvert t obs => optZ_eqb (convert_perm t) obs
+  | CConvertO n obs => optZ_eqb (convert_perm (repeat_o (Z.to_nat n))) obs
   end.
